@@ -6,6 +6,7 @@ reg = json.load(open(os.path.join(ROOT, 'lean', 'props.json')))
 props = [json.loads(l) for l in open(os.path.join(ROOT, 'properties.jsonl'))]
 TEXT = json.load(open(os.path.join(ROOT, 'tools', 'levels.json')))
 hooks_commit = '7d8da2e'
+hooks_commit2 = 'cc671f2'
 checks = []; na = []
 for p in props:
     pid = p['id']
@@ -28,7 +29,7 @@ m = dict(
     version=1,
     setup_cmd='./check setup',
     hooks=dict(guard='verif', enable='cargo feature: the harness depends on i_tree by path with features = ["verif"] (cargo build --offline in /verif/harness)',
-               baseline_off_cmd='cd /repo && cargo test --workspace --no-fail-fast --offline', source_commits=[hooks_commit], add_only=True),
+               baseline_off_cmd='cd /repo && cargo test --workspace --no-fail-fast --offline', source_commits=[hooks_commit, hooks_commit2], add_only=True),
     engines=[dict(name='lean-model', path='/verif/lean', serves_properties=[c['property_id'] for c in checks], kind_free_text='Lean 4 model of the collections, property theorems (ITree/Props), protocol driver (lean_exe)'),
              dict(name='tie-harness', path='/verif/harness', serves_properties=[c['property_id'] for c in checks], kind_free_text='Rust harness running the real collections (feature verif): abstraction function, transition emitter, oracles, generators, panic injection')],
     checks=checks,
